@@ -256,16 +256,18 @@ def deserialize_address(address, encoding=None, network=None):
 
     if encoding is None or encoding == 'base58':
         try:
-            address_bytes = change_base(address, 58, 256, 25)
+            address_bytes = change_base(address, 58, 256)
         except EncodingError:
             pass
         else:
             check = address_bytes[-4:]
             key_hash = address_bytes[:-4]
             checksum = double_sha256(key_hash)[0:4]
-            if check != checksum and encoding == 'base58':
-                raise BKeyError("Invalid address %s, checksum incorrect" % address)
-            elif check == checksum:
+            # Version byte + 20 byte hash + 4 byte checksum, no padding of shorter and no acceptance of longer payloads
+            valid = len(address_bytes) == 25 and check == checksum
+            if not valid and encoding == 'base58':
+                raise BKeyError("Invalid address %s, checksum incorrect or invalid length" % address)
+            elif valid:
                 address_prefix = key_hash[0:1]
                 networks_p2pkh = network_by_value('prefix_address', address_prefix.hex())
                 networks_p2sh = network_by_value('prefix_address_p2sh', address_prefix.hex())
